@@ -177,3 +177,190 @@ def alphabet(d):
     if d in ("Country", "Currency", "Exchange"):
         return ALPHA_CODE
     return ALPHA_DATE
+
+
+DIG = "0123456789"
+
+
+def exhaustive(alpha, maxlen):
+    for n in range(0, maxlen + 1):
+        for tup in itertools.product(alpha, repeat=n):
+            yield "".join(tup)
+
+
+def one_edits(s, alpha):
+    """Every string at edit distance one from s over the alphabet (substitute, delete, insert)."""
+    out = set()
+    for i in range(len(s)):
+        out.add(s[:i] + s[i + 1:])
+        for a in alpha:
+            out.add(s[:i] + a + s[i + 1:])
+    for i in range(len(s) + 1):
+        for a in alpha:
+            out.add(s[:i] + a + s[i:])
+    out.discard(s)
+    return out
+
+
+def rand_edit(rng, s, alpha):
+    k = rng.randrange(3)
+    i = rng.randrange(len(s) + (1 if k == 2 else 0)) if (s or k == 2) else 0
+    if not s:
+        return rng.choice(alpha)
+    if k == 0:
+        return s[:i] + rng.choice(alpha) + s[i + 1:]
+    if k == 1:
+        return s[:i] + s[i + 1:]
+    return s[:i] + rng.choice(alpha) + s[i:]
+
+
+def rdigits(rng, n):
+    return "".join(rng.choice(DIG) for _ in range(n))
+
+
+YEARS = ["0000", "0001", "0004", "0100", "0400", "1600", "1900", "1999", "2000", "2023", "2024", "2100", "9999"]
+FRACS = ["", ".", ".0", ".00", ".000", ".999", ".0000", ".00000", ".000000", ".123456", ".0000000", ".12a", ".123456789",
+         ".٣٣٣", ".123.456"]
+
+
+def rand_date(rng):
+    y = rng.choice(YEARS) if rng.random() < 0.3 else "%04d" % rng.randrange(0, 10000)
+    m = rng.randrange(1, 13)
+    d = rng.randrange(1, 32) if rng.random() < 0.2 else rng.randrange(1, calendar.mdays[m] + 1)
+    return "%s%02d%02d" % (y, m, d)
+
+
+def rand_time(rng):
+    s = "%02d:%02d:%02d" % (rng.randrange(24), rng.randrange(60), rng.choice([0, 59, 60, rng.randrange(60), rng.randrange(60)]))
+    r = rng.random()
+    if r < 0.4:
+        s += "." + rdigits(rng, 3)
+    elif r < 0.55:
+        s += "." + rdigits(rng, 6)
+    elif r < 0.6:
+        s += "." + rdigits(rng, rng.randrange(1, 10))
+    return s
+
+
+def rand_member(rng, d):
+    """A random string that is (usually) in the lexical space of d."""
+    if d == "int":
+        return rng.choice(["", "-"]) + rdigits(rng, rng.randrange(1, 21))
+    if d in ("Length", "NumInGroup", "SeqNum"):
+        return "0" * rng.randrange(0, 3) + str(rng.randrange(1, 10 ** rng.randrange(1, 12)))
+    if d == "DayOfMonth":
+        return "0" * rng.randrange(0, 3) + str(rng.randrange(1, 32))
+    if d == "float":
+        ip, fp = rdigits(rng, rng.randrange(0, 12)), rdigits(rng, rng.randrange(0, 12))
+        dot = "." if (fp or rng.random() < 0.3) else ""
+        return rng.choice(["", "-"]) + ((ip + dot + fp) if (ip or fp) else "0")
+    if d == "char":
+        return chr(rng.choice([rng.randrange(32, 127), rng.randrange(0, 0x3000)]))
+    if d == "Boolean":
+        return rng.choice("YN")
+    if d in ("String", "data"):
+        return "".join(chr(rng.choice([rng.randrange(32, 127), rng.randrange(32, 127), rng.randrange(0, 0x500)]))
+                       for _ in range(rng.randrange(1, 20)))
+    if d == "MultipleValueString":
+        return " ".join("".join(rng.choice("ABab019=") for _ in range(rng.randrange(1, 4))) for _ in range(rng.randrange(1, 6)))
+    if d in ("Country", "Currency", "Exchange"):
+        n = {"Country": 2, "Currency": 3, "Exchange": 4}[d]
+        return "".join(rng.choice("ABCXYZabz0189") for _ in range(rng.randrange(1, n + 1)))
+    if d in ("UTCDateOnly", "LocalMktDate"):
+        return rand_date(rng)
+    if d == "UTCTimeOnly":
+        return rand_time(rng)
+    if d == "UTCTimestamp":
+        return rand_date(rng) + "-" + rand_time(rng)
+    if d == "month-year":
+        base = rand_date(rng)
+        r = rng.random()
+        return base[:6] if r < 0.3 else (base if r < 0.6 else base[:6] + "w" + rng.choice("123451234506"))
+    raise KeyError(d)
+
+
+def boundary(d):
+    """Boundary members and non-members of the lexical space of d."""
+    out = []
+    if d in ("int", "Length", "NumInGroup", "SeqNum", "DayOfMonth"):
+        out += ["0", "-0", "00", "000", "1", "01", "007", "9", "10", "30", "31", "32", "031", "0032", "-1", "-31", "+1", "+0",
+                " 1", "1 ", "1\n", "\t1", "1_0", "1__0", "_1", "1_", "1.0", "10.2", "1e1", "0x1", "0b1", "0o1", "١", "１",
+                "٣1", "as", "-", "--1", "-+1", "- 1", "1-", "2147483647", "2147483648", "9223372036854775808",
+                "-9223372036854775809", "1" * 50, "1\x00", "\x001", "1\xa0", "\xa01", "\x851", "1\x1f", "1 ", "﻿1",
+                "1" * 4300, "1" * 4301, "-" + "1" * 4300, "-" + "1" * 4301, "0" * 4300, "0" * 4301, "0" * 4299 + "1",
+                "0" * 4300 + "1", "0" * 4298 + "31", "0" * 4299 + "31", "0" * 4299 + "32", "1" * 4300 + " ", "1" * 4299 + "_1",
+                "1" * 5000, "-" + "0" * 4301, "+" + "1" * 4300]
+    if d == "float":
+        t = FLOAT_INF
+        out += ["0", "-0", "0.0", "-0.0", "1", "1.", ".1", "-.1", "-1.", ".", "-.", "-", "+1", "+.1", "1.1.", "1..1", "..1", "1.1.1",
+                "1e5", "1E5", "1e-5", "1.e1", ".1e1", "inf", "-inf", "+inf", "Inf", "INF", "infinity", "nan", "-nan", "NaN", "1_0", "1_0.0",
+                "1._0", " 1.0", "1.0 ", "1.0\n", "\t1", "0x1p3", "0x10", "1,5", "1.5f", "١.٥", "１", "1\x00", "as", "--1", "-+1", "- 1",
+                "1-", "00023.23", "23.0000", "1.1231", "-1.12310923810281", "1" * 50, "0." + "0" * 400 + "1", "-0." + "0" * 400 + "1",
+                str(t), str(t - 1), str(t + 1), "-" + str(t), "-" + str(t - 1), str(t) + ".0", str(t - 1) + ".9999999999", str(t)[:-1] + "." + str(t)[-1],
+                str(t - 1)[:-1] + "." + str(t - 1)[-1] + "999", str(t * 10)[:-1] + "." + str(t * 10)[-1], str(t * 10 - 1)[:-1] + "." + str(t * 10 - 1)[-1],
+                "000" + str(t), "000" + str(t - 1), str(t) + "." + "0" * 50, str(t - 1) + "." + "9" * 50,
+                "1" + "0" * 308, "1" + "0" * 309, "9" * 308, "9" * 309, "1" + "0" * 400, "1" + "0" * 400 + ".5", "-1" + "0" * 400,
+                "0" * 5000 + "1", "0" * 5000 + ".1", "1" * 4301 + ".0", "1" * 308 + "." + "1" * 5000, "1e400", "1e309", "1e308",
+                "1.7976931348623157e308", "1.7976931348623159e308", "17976931348623157" + "0" * 292, "17976931348623158" + "0" * 292,
+                "17976931348623159" + "0" * 292]
+    if d in ("char", "Boolean", "String", "MultipleValueString", "data"):
+        out += ["Y", "N", "y", "n", "Z", "YN", "Y ", " Y", "Y\n", "1", "A", "z", "!", "=", "a=b", SOH, "a" + SOH + "s", "a" + SOH, " ", "  ", "a b",
+                "a  b", " a", "a ", "a b c", "a\tb", "a\nb", "Y AS NA za", "N N 2 1 n", "as some tag=values", "é", "日本", "\x00", "\x7f",
+                "\ud800", "x" * 300, "Hey this is alphanum string ! Also, some @tags, #test", "202309" + SOH, "-202309", "a = b", "=" * 3,
+                "a b", "a\xa0b", " ", "１"]
+    if d in ("Country", "Currency", "Exchange"):
+        out += ["RU", "US", "ZAR", "RUB", "USD", "EURU", "EU@", "NYSE", "NQ", "EUREx", "EUREX", "X", "x", "0", "00", "U_", "_", "U S", "US ", " US",
+                "US\n", "é", "Ué", "٣", "U٣", "ＵＳ", "u-", "A=", "A" + SOH, "ABCDE", "abcd", "abcde", "1234", "12345", "A\x00", "µ", "ª", "²", "ß",
+                "ǅ", "Á", "A.B"]
+    if d in ("UTCDateOnly", "LocalMktDate", "month-year", "UTCTimestamp"):
+        dates = []
+        for y in YEARS:
+            for m in range(0, 14):
+                for dd in (0, 1, 9, 10, 27, 28, 29, 30, 31, 32, 99):
+                    dates.append("%s%02d%02d" % (y, m, dd))
+        dates += ["20230921", "20230231", "EUREx", "20230921 14:00:00.12312", "2023921", "202309211", "2023-09-21", "2023/09/21", "2023 921",
+                  "20230 21", "202309 1", "2023091", "+2023921", "-2023921", "٢٠٢٣0921", "２０２３0921", "2023092１", "20230921\n", " 20230921",
+                  "20230921 ", "2023_921", "2023092١", "1e230921", "0x230921", "00010101", "00000101", "00000229", "00000230", "99991231",
+                  "10000101", "19000229", "20000229", "21000229", "20240229", "20230229", "-0010101", "2023.921"]
+        if d in ("UTCDateOnly", "LocalMktDate"):
+            out += dates
+        if d == "month-year":
+            out += dates
+            for y in YEARS:
+                for m in range(0, 14):
+                    out.append("%s%02d" % (y, m))
+                    for w in ("w0", "w1", "w2", "w3", "w4", "w5", "w6", "W1", "w", "ww", "1w", "w11", " w1", "w1 ", "w١"):
+                        out.append("%s%02d%s" % (y, m, w))
+            out += ["202309", "20230921", "202309w1", "202309w5", "20230925w5", "202309w6", "2023w1", "20w309w1", "w1", "w", "2023009w1", "20239w1",
+                    "2023 9", "2023٠9", "20239", "2023091", "202309211", "w12023", "202309w1w1", "2023w9w1", "202309W1", "٢٠٢٣09", "2023-09", "20230"]
+        if d == "UTCTimestamp":
+            tparts = ["00:00:00", "23:59:59", "23:59:60", "23:59:61", "24:00:00", "14:00:00", "14:00:00.123", "14:00:00.123456", "14:00:00.123456789",
+                      "1:2:3", "01:02:03.1", "01:02:03.12", "01:02:03.1234", "01:02:03.12345", "23:59:60.123", "23:59:60.123456", "12:60:00", "14:00",
+                      "140000", "14:00:00.", "14-00-00", "14:00:00,123", "00:00:60.000000", "23:59:59.999999"]
+            for dt in ["20230921", "00000101", "00010101", "20230231", "20240229", "99991231", "2023921", "20231301", "00000229", "19000229"]:
+                for tp in tparts:
+                    for sep in ("-", " ", "T", "", "--", "_"):
+                        out.append(dt + sep + tp)
+            out += [x + "-00:00:00" for x in dates[::7]]
+            out += ["20230921-14:00:00", "20230921-14:00:00.123", "20230921-14:00:00.123456", "20230921-14:00:00.123456789", "20230101-1:2:3",
+                    "2023011-01:02:03", "٢٠٢٣0921-14:00:00", "20230921-14:00:00Z", "20230921-14:00:00 ", " 20230921-14:00:00", "20230921-14:00:00\n",
+                    "20230921-14:00:00+00", "20230921-14:00:0٠", "20230921-14:00:00.٠٠٠", "20230921-14:00:00.000000\n"]
+    if d in ("UTCTimeOnly", "UTCTimestamp"):
+        hs = list(range(0, 26)) + [29, 30, 99]
+        ms = [0, 1, 9, 10, 59, 60, 61, 99]
+        ss = [0, 9, 10, 59, 60, 61, 62, 69, 99]
+        pre = "20230921-" if d == "UTCTimestamp" else ""
+        for h in hs:
+            for m in ms:
+                for sec in ss:
+                    base = "%s%02d:%02d:%02d" % (pre, h, m, sec)
+                    out.append(base)
+                    if h in (0, 23, 24) or (m in (59, 60) and sec in (59, 60, 61)):
+                        out += [base + f for f in FRACS]
+        if d == "UTCTimeOnly":
+            out += ["14:00:00", "14:00:00.123", "14:00:00.123456", "14:00:00.123456789", "EUREx", "20230921 14:00:00.123456789", "1:2:3", "1:02:03",
+                    "01:2:03", "01:02:3", "010203", "01:02", "01:02:03:04", "01-02-03", " 01:02:03", "01:02:03 ", "01:02:03\n", "٠١:02:03", "01:02:٠3",
+                    "0１:02:03", "01:02:03.", "01:02:03.1", "01:02:03.12", "01:02:03.1234", "01:02:03.12345", "01:02:03.1234567", "+1:02:03",
+                    "01:02:03.+12", "01:02:03.-12", "01:02:03. 12", "01:02:03.12 ", "01:02:03.1_2", "01:02:03,123", "01.02.03", "24:00:00", "23:60:00",
+                    "23:59:60", "23:59:60.000", "23:59:60.000000", "23:59:61", "00:00:00.000000", "23:59:59.999999", "00:00:60"]
+    return out
